@@ -3,7 +3,8 @@
 cd /verif
 for d in seeded/B*; do
   props=$(/venv/bin/python -c "import json; print(json.load(open('$d/meta.json'))['properties_checked'].replace(',',' '))")
+  base=$(/venv/bin/python -c "import json; print(json.load(open('$d/meta.json')).get('base_commit',''))")
   for prop in $props; do
-    echo "=== $d ($prop)"; tools/mutant.sh $d/patch.diff $prop > $d/result-$prop.txt 2>&1; tail -1 $d/result-$prop.txt
+    echo "=== $d ($prop)"; BASE_COMMIT=$base tools/mutant.sh $d/patch.diff $prop > $d/result-$prop.txt 2>&1; tail -1 $d/result-$prop.txt
   done
 done
